@@ -1408,3 +1408,7 @@ mod tests {
         assert!(cookie.is_some());
     }
 }
+
+#[cfg(all(test, feature = "pendulum_project_ntpd_rs_verif"))]
+#[path = "../../../../verif/harness/ntp_proto/packet_extension_fields.rs"]
+mod verif_packet_extension_fields;
